@@ -260,6 +260,12 @@ fn run_scenario(v: &Value, base: &Path) -> Value {
     let _ = std::fs::remove_dir_all(&root);
     std::fs::create_dir_all(&root).unwrap();
     build_tree(&root, &entries, &errs);
+    // an ignore file with an unparsable line in the directory ABOVE the roots: every root reports the error through
+    // its visitor (Worker::run_one, add_parents) and is then walked as usual
+    let badparent = v["badparent"].as_bool().unwrap_or(false);
+    if badparent {
+        std::fs::File::create(root.join(".ignore")).unwrap().write_all(b"ab[\n").unwrap();
+    }
 
     let mut rng = StdRng::seed_from_u64(seed);
     let mut prio: Vec<i64> = (0..threads as i64).collect();
@@ -306,6 +312,9 @@ fn run_scenario(v: &Value, base: &Path) -> Value {
         wb.add(root.join(r));
     }
     wb.threads(threads).standard_filters(false).follow_links(!errs.is_empty());
+    if badparent {
+        wb.ignore(true).parents(true);
+    }
     let walker = wb.build_parallel();
 
     let done = Arc::new(Mutex::new(false));
@@ -327,6 +336,12 @@ fn run_scenario(v: &Value, base: &Path) -> Value {
                         Err(e) => (err_path(&e).map(|p| rel(&root, &p)).unwrap_or_else(|| "<error>".to_string()), true),
                     };
                     let w = WORKER.with(|w| w.get());
+                    if err && (p == ".ignore" || p.starts_with("..") || p == "<error>") {
+                        // an error that is not about an entry of the tree (a bad ignore file above the roots): noted only
+                        let mut g = s.m.lock().unwrap();
+                        g.trace.push(json!({"ev":"Note","w":w.wrapping_add(1),"path":p}));
+                        return WalkState::Continue;
+                    }
                     let q = quit.contains(&p);
                     {
                         let mut g = s.m.lock().unwrap();
